@@ -187,21 +187,32 @@ structure FileSt where
   printed : List (String × Nat)        -- SCHEMAprint( schema, …, suffix ) calls, in order
   hung : Bool := false                 -- a sweep loop did not finish within its fuel
 
-/-- one visit of a schema that is still UNPROCESSED (`unsetObjs`, `checkTypes` with its sweep loop, `checkEnts`, the
-    `SCHEMAprint` decision, and — through SCOPEPrint — CANPROCESS objects becoming PROCESSED) -/
-def visitSchema (l : SweepLoop) (lc : EnumLastCase) (fs : FileSt) (p : PSchema) : FileSt :=
-  if !fs.unprocessed p.name || fs.hung then fs else
+/-- `unsetObjs( schema )`: the schema's own CANTPROCESS objects become NOTKNOWN again -/
+def unsetObjs (p : PSchema) (m : Marks) : Marks :=
+  fun n => if p.own.any (fun o => o.name == n) && m n == .cantprocess then .notknown else m n
+
+/-- `checkTypes` (its sweep loop, run with enough fuel for the stall-detecting shape) followed by `checkEnts`;
+    `none` = the loop did not finish -/
+def passResult (l : SweepLoop) (lc : EnumLastCase) (p : PSchema) (m : Marks) : Option St :=
+  let loop := runFrom l lc p.os p.types { marks := m, schemaUnprocessed := false } (p.types.length + 2)
+  if loop.exited then some (sweep lc p.os p.ents loop.st) else none
+
+/-- the `SCHEMAprint` decision and — through SCOPEPrint — CANPROCESS objects becoming PROCESSED -/
+def finishVisit (fs : FileSt) (p : PSchema) (s : St) : FileSt :=
   let isOwn (n : String) : Bool := p.own.any (fun o => o.name == n)
-  let m0 : Marks := fun n => if isOwn n && fs.marks n == .cantprocess then .notknown else fs.marks n      -- unsetObjs
-  let loop := runFrom l lc p.os p.types { marks := m0, schemaUnprocessed := false } (p.types.length + 2)
-  if !loop.exited then { fs with hung := true } else
-  let s := sweep lc p.os p.ents loop.st                                                                     -- checkEnts
   let any := p.own.any fun o => s.marks o.name == .canprocess                                               -- val1 || val2
   let suffix := if s.schemaUnprocessed || fs.counter p.name > 0 then fs.counter p.name + 1 else 0
   { marks := fun n => if any && isOwn n && s.marks n == .canprocess then .processed else s.marks n,
     unprocessed := fun n => if n = p.name then s.schemaUnprocessed else fs.unprocessed n,
     counter := fun n => if n = p.name ∧ any ∧ suffix > 0 then suffix else fs.counter n,
     printed := if any then fs.printed ++ [(p.name, suffix)] else fs.printed }
+
+/-- one visit of a schema that is still UNPROCESSED in `print_schemas_separate` -/
+def visitSchema (l : SweepLoop) (lc : EnumLastCase) (fs : FileSt) (p : PSchema) : FileSt :=
+  if !fs.unprocessed p.name || fs.hung then fs else
+  match passResult l lc p (unsetObjs p fs.marks) with
+  | none => { fs with hung := true }
+  | some s => finishVisit fs p s
 
 /-- one round of `while( !complete )`: every schema in DICTdo order -/
 def round (l : SweepLoop) (lc : EnumLastCase) (schemas : List PSchema) (fs : FileSt) : FileSt :=
